@@ -219,6 +219,7 @@ void c05_run(const Case &c, Result &r) {
   if (!p) { r.fail("build:" + why, why); return; }
   if (route == R_FILE) r.label(g_built_via_file ? "start:file-read-object" : "start:file-route-fell-back");
   bool solved_once = false, edited_since_solve = false, warm_resolve = false;
+  bool nondefault_sticky = false;   // a pricing rule or an iteration limit has been set on this object
   bool last_solve_optimal = false;  // the last solve on this object ended OPTIMAL (edits since then do not reset it)
   bool last_optimal = false;        // the last solve ended OPTIMAL and nothing was edited since
   std::vector<Q> last_x;
@@ -228,6 +229,7 @@ void c05_run(const Case &c, Result &r) {
     if (o.k == "solve") {
       SolveCfg cfg = SolveCfg::from_op(o);
       if (cfg.entry != 0 && cfg.itlim == 0) cfg.itlim = std::max(2000, 50 * (m.n() + m.m()));
+      if (cfg.pprice != 0 || cfg.dprice != 0 || cfg.itlim != 0) nondefault_sticky = true;
       Solution s;
       std::vector<Q> xf, y;
       QSexact_set_precision(128);
@@ -244,6 +246,7 @@ void c05_run(const Case &c, Result &r) {
       if (!definitive5(fst)) { r.label("scratch-nondefinitive"); solved_once = true; edited_since_solve = false; continue; }
       if (s.rval != 0 || !definitive5(s.status)) {
         if (cfg.entry == 0 && !model_is_moderate(m)) r.label("exact:nondefinitive-immoderate-data");   // outside C03's promise
+        else if (cfg.entry == 0 && nondefault_sticky) r.label("exact:nondefinitive-nondefault-config");   // as in C04: a pricing rule / limit set on the object persists
         else if (cfg.entry == 0)
           r.fail("resolve-nondefinitive:exact", strprintf("after history, QSexact_solver returned rval=%d status=%s but a fresh copy of the LP solves to %s", s.rval, stname5(s.status), stname5(fst)) + "\nlog: " + g_logbuf.substr(0, 600));
         else if (s.rval == 0 && s.status == QS_LP_ITER_LIMIT) r.label("direct:iter-cap");
@@ -417,7 +420,7 @@ void c05_run(const Case &c, Result &r) {
       mpq_QSprob q = mpq_QScopy_prob(p, "copy");
       if (!q) { r.fail("copy-failed", "QScopy_prob returned NULL"); break; }
       if (!o.i.empty() && o.i[0] == 1) { mpq_QSfree_prob(q); r.label("copy:keep-original"); }
-      else { mpq_QSfree_prob(p); p = q; r.label("copy:continue-on-copy"); solved_once = false; last_optimal = false; last_solve_optimal = false; }
+      else { mpq_QSfree_prob(p); p = q; r.label("copy:continue-on-copy"); solved_once = false; last_optimal = false; last_solve_optimal = false; }   // (the copy inherits pricing rules and limits)
       continue;
     }
     // edit
